@@ -41,6 +41,7 @@ def make_lifter(loc_db, arch=None):
     A = arch or Arch()
 
     class Regs(object):
+        exception_flags = E().ExprId("exception_flags", 32)
         regs_init = dict(A.inits)
         all_regs_ids = A.regs + [A.pc]
         all_regs_ids_init = [A.inits[x] for x in A.regs + [A.pc]]
